@@ -1,5 +1,5 @@
 /-
-C05 — property theorems (theorems only; helper lemmas live in SwV/Lemmas/C05.lean).
+C05 — property theorems (theorems only; helper lemmas live in SwV/Lemmas/C05{,b,c,d,e}.lean).
 They are about the model in SwV/Model/C05.lean, which the correspondence check compares with
 the real needle_map.CompactMap / storage needle mappers on every call (returned values,
 AscendingVisit contents, all counters), under both offset widths.
@@ -8,6 +8,10 @@ import SwV.Model.C05
 import SwV.Spec.C05
 import SwV.Gen.C05
 import SwV.Lemmas.C05
+import SwV.Lemmas.C05b
+import SwV.Lemmas.C05c
+import SwV.Lemmas.C05d
+import SwV.Lemmas.C05e
 
 namespace SwV.Props.C05
 open SwV.Model.C05 SwV.Spec.C05 SwV.Lemmas.C05
@@ -31,126 +35,159 @@ theorem bridge_source_pins :
     SwV.Gen.C05.src_Set = "7cc7556418c87ae2" ∧ SwV.Gen.C05.src_Delete = "a131352e6bac57ed" ∧
     SwV.Gen.C05.src_Get = "724f47d43ce82813" := by decide
 
-/-! ### a section refines a key ↦ entry map -/
+/-! ### a section refines a key ↦ entry map
 
-/-- representation invariant of a section: values strictly sorted (reversed list strictly
-    descending), overflow strictly ascending, and no key in both -/
-def SecInv (s : Sec) : Prop :=
-  DescSorted s.rvals ∧ AscSorted s.ovf ∧ (∀ x, x ∈ keys s.ovf → getK x s.rvals = none)
-
-/-- the map a section denotes (sectional key ↦ entry): overflow binding, else values binding -/
-def look (s : Sec) (k : Nat) : Option Ent :=
-  match getK k s.ovf with
-  | some e => some e
-  | none => getK k s.rvals
-
-theorem getK_key (k : Nat) (l : List Ent) (e : Ent) (h : getK k l = some e) : e.key = k ∧ k ∈ keys l := by
-  unfold getK at h
-  have h1 := List.find?_some h
-  have h2 := List.mem_of_find?_eq_some h
-  simp at h1
-  exact ⟨h1, by rw [← h1]; exact List.mem_map_of_mem h2⟩
+`SecInv batch s` (SwV/Lemmas/C05b.lean): `counter` = number of values, values strictly sorted,
+overflow strictly sorted, no key in both, and — while the section is not full — every overflow key
+lies below the whole look-back window.  `look s k` is the denoted binding of sectional key `k`
+(overflow first, else values). -/
 
 /-- `CompactSection.Get` returns exactly the denoted binding, for every section satisfying the
     invariant and every key -/
-theorem section_get_refines (s : Sec) (h : SecInv s) (key : Nat) :
-    Sec.get s key = (look s (skeyOf s key)).map (toNV s) := by
-  unfold Sec.get look
-  simp only
-  rw [findAsc_eq _ _ h.2.1, findDesc_eq _ _ h.1]
-  cases getK (skeyOf s key) s.ovf <;> rfl
+theorem section_get_refines (batch : Nat) (s : Sec) (h : SecInv batch s) (key : Nat) :
+    Sec.get s key = (look s (skeyOf s key)).map (toNV s) :=
+  secGet_refines batch s h key
 
 /-- `CompactSection.Delete`: for every section satisfying the invariant and every key, the denoted
     map changes at that key only (a positive size is negated), the invariant is kept, and the
     returned size is the removed size — EXCEPT that for an overflow entry the stored size is
     returned even when it is already negative (finding
     CompactSection.Delete/negative-size-on-repeated-delete). -/
-theorem section_delete_refines (s : Sec) (h : SecInv s) (key : Nat) (k' : Nat) :
+theorem section_delete_refines (batch : Nat) (s : Sec) (h : SecInv batch s) (key : Nat) (k' : Nat) :
     let r := Sec.delete s key
     let sk := skeyOf s key
-    SecInv r.1 ∧
+    SecInv batch r.1 ∧
     look r.1 k' = (if k' = sk then (look s sk).map (fun e => if e.size > 0 then { e with size := -e.size } else e) else look s k') ∧
     r.2 = (match getK sk s.ovf with
            | some v => v.size
            | none => match getK sk s.rvals with
              | some e => if e.size > 0 then e.size else 0
-             | none => 0) := by
-  obtain ⟨hd, ha, hdis⟩ := h
-  simp only
-  unfold Sec.delete
-  simp only
-  rw [findAsc_eq _ _ ha, findDesc_eq _ _ hd]
-  have hneg : ∀ e : Ent, ({ e with size := -e.size } : Ent).key = e.key := fun _ => rfl
-  have hnegIf : ∀ e : Ent, (if e.size > 0 then ({ e with size := -e.size } : Ent) else e).key = e.key := by
-    intro e; split <;> rfl
-  cases hov : getK (skeyOf s key) s.ovf with
-  | some v =>
-    -- the key lives in the overflow list, hence not in values: values are untouched
-    have hk := getK_key _ _ _ hov
-    have hrv : getK (skeyOf s key) s.rvals = none := hdis _ hk.2
-    simp only [hrv]
-    have hkeys : keys (delAsc (skeyOf s key) s.ovf) = keys s.ovf := by
-      have : ∀ l : List Ent, keys (delAsc (skeyOf s key) l) = keys l := by
-        intro l
-        induction l with
-        | nil => rfl
-        | cons e rest ih =>
-          unfold delAsc
-          by_cases h1 : e.key = skeyOf s key
-          · simp only [h1, if_true, keys, List.map_cons]; rw [← h1]; congr 1; split <;> simp [h1]
-          · by_cases h2 : e.key > skeyOf s key
-            · simp [h1, h2]
-            · simp only [h1, h2, if_false]; simp only [keys, List.map_cons] at ih ⊢; rw [ih]
-      exact this _
-    refine ⟨⟨hd, ?_, ?_⟩, ?_, by first | rfl | trivial⟩
-    · unfold AscSorted; rw [hkeys]; exact ha
-    · intro x hx; rw [hkeys] at hx; exact hdis x hx
-    · unfold look; simp only
-      rw [getK_delAsc _ _ _ ha]
-      by_cases hk' : k' = skeyOf s key
-      · subst hk'; simp [hov]
-      · simp [hk']
-  | none =>
-    simp only
-    cases hrv : getK (skeyOf s key) s.rvals with
-    | none =>
-      simp only
-      refine ⟨⟨hd, ha, hdis⟩, ?_, by first | rfl | trivial⟩
-      unfold look
-      by_cases hk' : k' = skeyOf s key
-      · subst hk'; simp [hov, hrv]
-      · simp [hk']
-    | some e =>
-      simp only
-      by_cases hpos : e.size > 0
-      · simp only [hpos, if_true]
-        have hkeys := keys_updDesc (skeyOf s key) (fun e => { e with size := -e.size }) hneg s.rvals
-        refine ⟨⟨?_, ha, ?_⟩, ?_, by first | rfl | trivial⟩
-        · unfold DescSorted; rw [hkeys]; exact hd
-        · intro x hx
-          rw [getK_updDesc _ _ _ hneg _ hd]
-          by_cases hx2 : x = skeyOf s key
-          · subst hx2
-            -- x in overflow keys contradicts hov
-            have : getK (skeyOf s key) s.rvals = none := hdis _ hx
-            rw [this] at hrv; cases hrv
-          · simp [hx2]; exact hdis x hx
-        · unfold look; simp only
-          rw [getK_updDesc _ _ _ hneg _ hd]
-          by_cases hk' : k' = skeyOf s key
-          · subst hk'; simp [hov, hrv, hpos]
-          · simp [hk']
-      · simp only [hpos, if_false]
-        refine ⟨⟨hd, ha, hdis⟩, ?_, by first | rfl | trivial⟩
-        unfold look
-        by_cases hk' : k' = skeyOf s key
-        · subst hk'; simp [hov, hrv, hpos]
-        · simp [hk']
+             | none => 0) :=
+  secDelete_refines batch s h key k'
 
-example : ∃ s : Sec, SecInv s ∧ s.ovf ≠ [] ∧ s.rvals ≠ [] :=
+/-- `CompactSection.Set`: for every section satisfying the invariant, every key (in any order:
+    append, in-window insertion, overflow, overwrite) and every value, the invariant is kept, the
+    denoted map is updated at that key only, and the PREVIOUS binding is returned ((0,0,0) when
+    there was none) — EXCEPT that an overwritten overflow entry keeps its old `OffsetHigher` byte
+    (`setEnt`; finding CompactSection.setOverflowEntry/stale-offset-high-byte). -/
+theorem section_set_refines (batch : Nat) (s : Sec) (h : SecInv batch s) (key off hi : Nat) (size : Int) (k' : Nat) :
+    let r := Sec.set batch s key off hi size
+    let sk := skeyOf s key
+    SecInv batch r.1 ∧ r.1.start = s.start ∧ r.1.stop = max s.stop key ∧ s.cnt ≤ r.1.cnt ∧
+    (∀ x, x ∈ keys r.1.rvals ∨ x ∈ keys r.1.ovf ↔ x = sk ∨ (x ∈ keys s.rvals ∨ x ∈ keys s.ovf)) ∧
+    look r.1 k' = (if k' = sk then some (setEnt s sk off hi size) else look s k') ∧
+    r.2 = oldOf (look s sk) :=
+  secSet_refines batch s h key off hi size k'
+
+/-- the invariant is satisfiable by a section with values and overflow entries … -/
+example : ∃ s : Sec, SecInv 2 s ∧ s.ovf ≠ [] ∧ s.rvals ≠ [] :=
   ⟨⟨0, 10, 2, [⟨10, 2, 0, 22⟩, ⟨1, 1, 0, 11⟩], [⟨5, 3, 0, 33⟩]⟩, by
-    refine ⟨⟨by simp [DescSorted, keys], by simp [AscSorted, keys], ?_⟩, by decide, by decide⟩
-    intro x hx; simp [keys] at hx; subst hx; decide⟩
+    refine ⟨⟨rfl, by simp [DescSorted, keys], by simp [AscSorted, keys], ?_, ?_⟩, by decide, by decide⟩
+    · intro x hx; simp [keys] at hx; subst hx; decide
+    · intro hb; exact absurd hb (by decide)⟩
+
+/-- … and by one that is not full (first Set, append, in-window insertion) -/
+example : ∃ s : Sec, SecInv 100000 s ∧ s.rvals.length = 3 ∧ s.cnt < 100000 :=
+  ⟨(Sec.set 100000 (Sec.set 100000 (Sec.first 100000 1 1 0 11) 9 2 0 22).1 3 3 0 33).1,
+    (secSet_refines 100000 _ (secSet_refines 100000 _ (first_props 100000 1 1 0 11 none (by intro n hn; cases hn)).1
+      9 2 0 22 0).1 3 3 0 33 0).1, by decide, by decide⟩
+
+/-! ### the section list refines the reference map: all operation sequences
+
+`Op` = `set key offLower offHigher size | del key | get key` (SwV/Lemmas/C05d.lean); `execL`/`execR`
+run a sequence on the model (`setL`/`delL`) and on the reference (`Ref.set`/`Ref.delete` of the
+Spec, with full offset `fullOff lower higher`); `Abs cm r` says the map denoted by the section list
+(`denote`, read through `fullOff`) IS the reference map; `resOk` says the operation's result is the
+reference's.  `admFrom batch [] ops` is the decidable predicate on the op list that excludes the
+recorded findings, by replaying the model:
+  * `get k`/`del k` with `k − start ≥ 2^32` for the section consulted for `k` (`noAlias`);
+  * `set` overwriting an OVERFLOW entry whose `OffsetHigher` differs (`ovfAt`) — never with 4-byte
+    offsets, where that byte is always 0.
+The third finding (negative size returned by a repeated delete of an overflow entry) is not
+excluded: `resOk` states it as what it is. -/
+
+/- FULL-STRENGTH statement (false, see the `decide` witnesses below:
+   `far_key_aliases_witness`, `overflow_overwrite_stale_high_byte_witness`,
+   `delete_twice_overflow_negative_witness`):
+
+   theorem compactMap_refines_map (batch : Nat) (pre : List Op) (op : Op) :
+       Abs (execL batch [] pre) (execR [] pre) ∧
+       (match op with
+        | .del key => (delL batch key (execL batch [] pre)).2 = ((execR [] pre).delete key).2
+        | op => resOk batch (execL batch [] pre) (execR [] pre) op) -/
+
+/-- For EVERY sequence of set/delete/get operations (keys in any order, any distance apart) that
+    stays clear of the recorded findings, and every operation `op` following it: the abstraction of
+    the model state equals the reference map before and after `op`, and the result of `op` is the
+    reference's (Set: previous binding; Get: the binding, under the requested key; Delete: the removed
+    size, or the stored negative size of an already deleted overflow entry). -/
+theorem compactMap_refines_map_partial (batch : Nat) (pre : List Op) (op : Op)
+    (h : admFrom batch [] (pre ++ [op]) = true) :
+    Abs (execL batch [] pre) (execR [] pre) ∧
+    resOk batch (execL batch [] pre) (execR [] pre) op ∧
+    Abs (applyL batch (execL batch [] pre) op) (applyR (execR [] pre) op) :=
+  run_results batch pre op h
+
+/-- admissibility is prefix-closed, so the theorem above covers every operation of an admissible
+    sequence, and the final state of the whole sequence -/
+theorem compactMap_refines_map_final_partial (batch : Nat) (ops : List Op) (h : admFrom batch [] ops = true) :
+    MapInv batch (execL batch [] ops) ∧ Abs (execL batch [] ops) (execR [] ops) ∧
+    ∀ pre post, ops = pre ++ post → admFrom batch [] pre = true :=
+  ⟨(run_sim batch ops [] [] trivial abs_nil h).1, (run_sim batch ops [] [] trivial abs_nil h).2,
+    fun pre post e => admFrom_prefix batch pre post (e ▸ h)⟩
+
+/-- in terms of the Spec's judges: on admissible sequences the model's results are never rejected,
+    except with the known class `CompactSection.Delete/negative-size-on-repeated-delete` -/
+theorem compactMap_judges_accept_partial (batch : Nat) (pre : List Op) (op : Op)
+    (h : admFrom batch [] (pre ++ [op]) = true) :
+    judgesAccept batch (execL batch [] pre) (execR [] pre) op :=
+  judges_accept batch _ _ op (run_results batch pre op h).2.1
+
+/-- non-vacuity: an admissible sequence (batch = 2) that appends, inserts out of order into the
+    overflow list, overwrites an overflow entry, deletes it twice, opens a new section behind a full
+    one and one 2^33 away, and reads keys of all three sections -/
+example : admFrom 2 [] [.set 1 1 0 11, .set 10 2 0 22, .set 5 3 0 33, .set 5 4 0 44, .del 5, .del 5,
+    .get 5, .set 100 5 0 55, .set 8589934592 6 0 66, .get 8589934592, .get 7, .del 100, .get 100,
+    .set 3 7 1 77, .get 3] = true := by decide
+
+/-- the exclusions are real: the three witnesses' sequences are NOT admissible / not exact -/
+example : admFrom 100000 [] [.set 1000 7 0 70, .get (1000 + 4294967296)] = false := by decide
+example : admFrom 2 [] [.set 1 1 0 11, .set 10 2 0 22, .set 5 3 1 33, .set 5 4 2 44] = false := by decide
+
+/-! ### reload: `doLoading` over the index log reproduces the map and every counter
+
+`MOp` = `put key offset size | del key tombstoneOffset` on the in-memory NeedleMap
+(`MemMap.put`/`MemMap.delete`: CompactMap + `mapMetric` + appended .idx record).
+`reloadOkFrom batch {} [] ops` is the decidable predicate on the op list (replaying model and
+reference) that excludes the recorded reload findings: every put has size > 0
+(`mem-reload/empty-needle-counted-as-deletion`, `mem-reload/empty-needle-not-found`) and a non-zero
+offset (offset 0 is the superblock: `doLoading` reads such a record as a deletion) and is
+CompactMap-admissible; every delete addresses a key that is LIVE in the reference
+(`mem-reload/noop-delete-counted-as-deletion`) and does not alias. -/
+
+/- FULL-STRENGTH statement (false: `reload_counters_empty_needle_witness` below):
+   theorem reload_counters (batch : Nat) (ops : List MOp) :
+       let online := ops.foldl (applyM batch) {}
+       loadMem batch online.idx.reverse = (online.cm, online.met) -/
+
+/-- For EVERY such sequence of puts and deletes, replaying the index-entry log through the loader
+    yields exactly the section list and exactly the counters (FileCounter, DeletionCounter,
+    FileByteCounter, DeletionByteCounter, MaxFileKey) that were maintained online. -/
+theorem reload_counters_partial (batch : Nat) (ops : List MOp) (h : reloadOkFrom batch {} [] ops = true) :
+    let online := ops.foldl (applyM batch) {}
+    loadMem batch online.idx.reverse = (online.cm, online.met) :=
+  (reload_run batch ops {} [] (reload_init batch) h).2.2.1
+
+/-- consequently every lookup after the reload equals the lookup before -/
+theorem reload_lookups_partial (batch : Nat) (ops : List MOp) (h : reloadOkFrom batch {} [] ops = true) (key : Nat) :
+    let online := ops.foldl (applyM batch) {}
+    getL batch key (loadMem batch online.idx.reverse).1 = getL batch key online.cm := by
+  intro online
+  rw [reload_counters_partial batch ops h]
+
+/-- non-vacuity: puts (appended, out of order into overflow, overwritten) and deletes of live keys -/
+example : reloadOkFrom 2 {} [] [.put 3 10 100, .put 9 11 200, .put 5 12 300, .put 3 13 400, .del 5 14,
+    .put 5 15 500, .del 9 16, .put 100 17 600] = true := by decide
 
 /-! ### the recorded findings, on concrete witnesses (`batch` = 2 makes the section full after two entries: same overflow code path) -/
 
